@@ -345,6 +345,12 @@ def _model(ctx):
                       label="DslConc design, MaxTok=4, fault-case enumeration")
         if not gen.ok:
             raise vlib.Infra("DslConc.tla (enumeration run) violates %s" % gen.violated)
+    # strings with escape sequences: the decoder sends one rune per element, whatever its length in bytes
+    ecfg = _cfg("DslConcEsc.cfg", MaxRunes=ctx.pick(3, 4))
+    esc = ctx.tlc("DslConc", cfg="DslConcE.cfg", files={"DslConcE.cfg": ecfg}, timeout=1800,
+                  label="DslConc design, strings with escape sequences (runes sent /= bytes)")
+    if not esc.ok:
+        raise vlib.Infra("DslConc.tla (escape configuration) violates %s" % esc.violated)
     live = ctx.tlc("DslConc", cfg="DslConcLive.cfg", timeout=900, label="DslConc design, liveness under weak fairness")
     if not live.ok:
         raise vlib.Infra("DslConc.tla (design) violates liveness: %s" % live.violated)
@@ -356,18 +362,23 @@ def _model(ctx):
     last = "\n".join(neg.counterexample[-20:])
     if 'ppc = "exit"' not in last or 'pc |-> "send"' not in last:
         raise vlib.Infra("negative configuration failed in an unexpected state:\n" + last)
+    neg3 = ctx.tlc("DslConc", cfg="DslConcTight.cfg", timeout=600,
+                   label="DslConc, buffer one short per escaped backslash: must fail")
+    if neg3.violated not in ("SinkGood", "deadlock"):
+        raise vlib.Infra("negative configuration DslConcTight did not fail as expected (%s)" % neg3.violated)
     neg2 = ctx.tlc("DslConc", cfg="DslConcNoLine.cfg", timeout=600,
                    label="DslConc as read (error items without line): must fail")
     if neg2.violated != "ResultOK":
         raise vlib.Infra("negative configuration DslConcNoLine did not fail as expected (%s)" % neg2.violated)
     ctx.notes.append("negative configurations fail in TLC as required: unbuffered decoder channel -> %s (parser exited, "
-                     "decoder blocked in send); error items without line -> ResultOK" % neg.violated)
+                     "decoder blocked in send); buffer = bytes - 2 - backslashes -> %s; error items without line -> ResultOK"
+                     % (neg.violated, neg3.violated))
     ctx.cov["exhaustive"] = True
     ctx.cov["bounds"] = {"MaxTok": mt, "MaxStr": 2, "MaxRunes": 3, "MaxPeek": 2,
                          "parse_error": "after any item / at any rune", "lexical_error": "at the end of any token list",
                          "interleavings": "all"}
     seen, out = set(), []
-    for c in gen.cases:
+    for c in gen.cases + [x for x in esc.cases if any(t["k"] == "s" and set(t["r"]) != {"p"} for t in x["toks"])]:
         k = json.dumps(c, sort_keys=True)
         if k not in seen:
             seen.add(k)
@@ -412,7 +423,7 @@ def run(ctx):
     seen = collections.Counter()
     cat = []
     for s in shapes:
-        if s["font"] not in ("nc", "c", "np") or s["lst"] != "single":
+        if s["font"] not in ("nc", "c", "np", "e") or s["lst"] != "single" or len(s["forms"]) > 3 or s["a"] > 4 or s["b"] > 7:
             continue
         k = (s["font"], s["tab"], s["typ"], tuple(s["forms"]))
         if seen[k] >= per:
@@ -444,7 +455,7 @@ def run(ctx):
     ctx.notes.append("realisation of TLC fault cases: model error/real error %d, model error/real lookups %d (the mutation left a "
                      "valid description), model ok/real ok %d, model ok/real error %d" % (
                          agree[(True, True)], agree[(True, False)], agree[(False, False)], agree[(False, True)]))
-    envs = {"C19_REPS": str(ctx.pick(2, 5)), "C19_RANDOM": str(ctx.pick(600, 6000))}
+    envs = {"C19_REPS": str(ctx.pick(2, 5)), "C19_RANDOM": str(ctx.pick(600, 6000)), "C19_ESCSTR": str(ctx.pick(1, 2))}
     scat = os.path.join(d, "sweepcat.ndjson")
     step = ctx.pick(3, 4)      # quick: about 45 descriptions, thorough: about 270
     vlib.write_ndjson(scat, cat[(ctx.seed % step)::step])
